@@ -476,6 +476,8 @@ def main():
     chk.obligation('translator:chain', ch_ok, ch_err)
     (rt_ok, rt_err) = chk.translate_ok('recvtail')
     chk.obligation('translator:recvtail', rt_ok, rt_err)
+    (rg_ok, rg_err) = chk.translate_ok('recvgates')
+    chk.obligation('translator:recvgates', rg_ok, rg_err)
 
     count = 240 if chk.quick() else 24000
     length = 8
